@@ -25,12 +25,12 @@ var (
 		"JaVaScRiPt:alert(1)", " javascript:alert(1)", "java\tscript:alert(1)", "jav&#x09;ascript:alert(1)", "data:image/png;base64,iVBORw0KGgo=",
 		"data:text/html,<script>alert(1)</script>", "mailto:a@b.c", "//host/p", "http://[::1]/", "http://a b/", "%zz", "vbscript:x",
 		"", "?q=1", "ftp://f/x", "x:y", "http:\\\\e.com\\p", "HTTP://EXAMPLE.ORG/Up", "http://u:p@h.com/", "http://h.com/%41%zz", "https://xn--nxasmq6b.example/",
-		"http://example.com/é", "\x01javascript:alert(1)", "http://example.org/a b", "tel:+1234", "HtTpS://e.com/x?y=<z>"}
+		"http://example.com/é", " http://example.org/lead", "\nhttps://e.com/x", "https://e.com/trail\n", "data:image/png;base64,iVBO\nRw0KGgo=", "\x01javascript:alert(1)", "http://example.org/a b", "tel:+1234", "HtTpS://e.com/x?y=<z>"}
 	genTextVals  = []string{"k", "a b", "x\"y", "<i>", "&amp;", "é中", "1", "50%", "rtl", "LTR", "", "left", "abc def", "'q'", "a\x00b", "on", "red;"}
 	genRelVals   = []string{"nofollow", "NOFOLLOW", "noopener", "tag", "xnofollowx", "", "me  nofollow", "noreferrer noopener", "notnoopenerx", "author\tnofollow"}
 	genTgtVals   = []string{"_blank", "_top", "", "_BLANK", "frame1"}
 	genStyleVals = []string{"color: red", "color:red;background:url(javascript:alert(1))", "COLOR: RED; font-size: 12px", "text-align:center;;", "width: expression(alert(1))",
-		"color: \\72 ed", "-webkit-transition: none", "color: red !important", "background-image: url('http://e.com/a;b.png')", "/* c */ color: blue", "color", ":", "color: r\\65 d", "font-family: \\110000 x"}
+		"color: \\72 ed", "color: r\\65D", "color: b\\6Cue", "-webkit-transition: none", "color: red !important", "background-image: url('http://e.com/a;b.png')", "/* c */ color: blue", "color", ":", "color: r\\65 d", "font-family: \\110000 x"}
 	genSandboxVals = []string{"allow-forms", "allow-scripts allow-forms", "allow-forms  allow-forms", "bogus", "", "ALLOW-FORMS", "allow-same-origin\tallow-popups bogus"}
 )
 
